@@ -298,7 +298,12 @@ class Interp:
             elif isinstance(st, ast.AnnAssign) and value is not None:
                 self._bind(st.target, subst(value, state.env), state)
             elif isinstance(st, ast.AugAssign) and isinstance(st.target, ast.Name):
-                state.env.pop(st.target.id, None)
+                cur = state.env.get(st.target.id)
+                if cur is not None and (not isinstance(cur, ast.Name) or isinstance(value, (ast.Constant, ast.JoinedStr))) and not is_mutable_display(cur) and st.target.id not in state.env.get("<identity>", ()):
+                    # immutable value (str / number / tuple): `x += v` is the rebinding `x = x + v`
+                    state.env[st.target.id] = ast.BinOp(left=cur, op=st.op, right=subst(value, state.env))
+                else:
+                    state.env.pop(st.target.id, None)
             return [Flow("next", state)]
         if isinstance(st, ast.Expr):
             v = st.value
@@ -529,3 +534,60 @@ def _handler_names(h: ast.ExceptHandler) -> List[str]:
     for t in ts:
         out.append(t.attr if isinstance(t, ast.Attribute) else getattr(t, "id", norm(t)))
     return out
+
+
+# --------------------------------------------------------------------------- helper inlining
+def inline_helpers(e: ast.expr, repo, fi, atom=None, depth: int = 2, only_private: bool = True) -> ast.expr:
+    """replace calls `self.m(...)` / `f(...)` of repository functions that have ONE symbolic outcome (a pure
+    expression of their parameters, no recorded effects) by that expression.  Makes a symbolic value independent of
+    whether a sub-expression was factored out into a helper.  Calls with several outcomes are left alone."""
+    from .model import bind_args, param_defaults
+
+    def callee_of(c: ast.Call):
+        f = c.func
+        if isinstance(f, ast.Attribute) and isinstance(f.value, ast.Name) and f.value.id in ("self", "cls") and fi.cls is not None:
+            m = repo.find_method(fi.cls, f.attr)
+            return m, True
+        if isinstance(f, ast.Name):
+            k, v = repo.resolve(fi.module, f.id)
+            if k == "func":
+                return v, False
+        return None, False
+
+    class T(ast.NodeTransformer):
+        def __init__(self, d):
+            self.d = d
+
+        def visit_Call(self, node):
+            self.generic_visit(node)
+            if self.d <= 0:
+                return node
+            callee, is_method = callee_of(node)
+            if callee is None or callee.key == fi.key:
+                return node
+            if only_private and not callee.node.name.startswith("_"):
+                return node
+            if isinstance(callee.node, ast.AsyncFunctionDef) or any(isinstance(x, (ast.Yield, ast.YieldFrom)) for x in ast.walk(callee.node)):
+                return node
+            if any(isinstance(x, (ast.FunctionDef, ast.ClassDef, ast.AsyncFunctionDef)) for x in callee.node.body):
+                return node
+            try:
+                outs = Interp(callee, atom or (lambda x: None)).run()
+            except Exception:
+                return node
+            rets = [o for o in outs if o.kind == "return"]
+            if len(rets) != 1 or len(outs) != 1 or rets[0].effects or rets[0].value is None:
+                return node
+            if any(k.startswith("<mut:") for k in rets[0].env):
+                return node
+            binding = bind_args(callee, node, method=is_method)
+            if any(k.startswith("*") for k in binding):
+                return node
+            for p, d in param_defaults(callee).items():
+                binding.setdefault(p, d)
+            params = [a.arg for a in callee.node.args.posonlyargs + callee.node.args.args + callee.node.args.kwonlyargs if a.arg not in ("self", "cls")]
+            if any(p not in binding for p in params):
+                return node
+            val = _Subst({p: binding[p] for p in params}, deep=True, force=True).visit(copy.deepcopy(rets[0].value))
+            return T(self.d - 1).visit(val)
+    return ast.fix_missing_locations(T(depth).visit(copy.deepcopy(e)))
